@@ -2369,8 +2369,7 @@ impl<E: Effect> Executor<E> {
         for (src_idx, source) in select_state.sources.iter().enumerate() {
             match source {
                 Value::Integer(timeout_ms) => {
-                    // A timeout beyond i64 range is effectively unbounded.
-                    let timeout_ms = timeout_ms.to_i64().unwrap_or(i64::MAX);
+                    let timeout_ms = timeout_millis(timeout_ms);
                     if let Some(value) =
                         self.handle_select_timeout(timeout_ms, start_time, current_time_ms)?
                     {
@@ -2778,7 +2777,7 @@ impl<E: Effect> Executor<E> {
                     .sources
                     .iter()
                     .filter_map(|source| match source {
-                        Value::Integer(ms) => Some(ms.to_i64().unwrap_or(i64::MAX).max(0) as u64),
+                        Value::Integer(ms) => Some(timeout_millis(ms).max(0) as u64),
                         _ => None,
                     })
                     .min()?;
@@ -2801,7 +2800,7 @@ impl<E: Effect> Executor<E> {
                     let elapsed = current_time_ms.saturating_sub(start_time);
                     return select_state.sources.iter().any(|source| {
                         if let Value::Integer(timeout_ms) = source {
-                            elapsed >= timeout_ms.to_i64().unwrap_or(i64::MAX).max(0) as u64
+                            elapsed >= timeout_millis(timeout_ms).max(0) as u64
                         } else {
                             false
                         }
@@ -2935,6 +2934,16 @@ impl<E: Effect> Executor<E> {
 
         Ok((remapped_value, heap_data))
     }
+}
+
+/// A select timeout in milliseconds. Beyond the i64 range a positive duration is effectively
+/// unbounded and a negative one has elapsed already, like any other negative duration.
+fn timeout_millis(ms: &num_bigint::BigInt) -> i64 {
+    ms.to_i64().unwrap_or(if ms.sign() == num_bigint::Sign::Minus {
+        0
+    } else {
+        i64::MAX
+    })
 }
 
 /// Recursively collect all heap indices referenced by a value
